@@ -137,5 +137,6 @@ func msToTime(ms int64) time.Time {
 }
 
 func timeToMS(t time.Time) int64 {
-	return t.UnixNano() / int64(time.Millisecond)
+	// UnixNano overflows for dates outside the years 1678 to 2262.
+	return t.Unix()*1000 + int64(t.Nanosecond())/int64(time.Millisecond)
 }
